@@ -41,8 +41,9 @@ from psyclone.errors import InternalError, LazyString
 from psyclone.psyGen import Transformation
 from psyclone.psyir.nodes import (
     ArrayReference, ArrayOfStructuresReference, BinaryOperation, Call,
-    CodeBlock, Container, IntrinsicCall, Node, Range, Routine, Reference,
-    Return, Literal, Assignment, StructureMember, StructureReference)
+    CodeBlock, Container, IntrinsicCall, Loop, Node, Range, Routine,
+    Reference, Return, Literal, Assignment, StructureMember,
+    StructureReference)
 from psyclone.psyir.nodes.array_mixin import ArrayMixin
 from psyclone.psyir.symbols import (
     ArgumentInterface, ArrayType, DataSymbol, UnresolvedType, INTEGER_TYPE,
@@ -823,6 +824,15 @@ class InlineTrans(Transformation):
                 f"({len(node.arguments)}) does not match the number of "
                 f"arguments the routine is declared to have "
                 f"({len(routine_table.argument_list)})."))
+
+        # A formal argument that is used as a loop variable is not a Reference
+        # and therefore would not be replaced by the actual argument.
+        for loop in routine.walk(Loop):
+            if loop.variable in routine_table.argument_list:
+                raise TransformationError(
+                    f"Routine '{routine.name}' cannot be inlined because its "
+                    f"argument '{loop.variable.name}' is used as a loop "
+                    f"variable.")
 
         for formal_arg, actual_arg in zip(routine_table.argument_list,
                                           node.arguments):
